@@ -11,6 +11,7 @@ import (
 	"time"
 
 	"github.com/google/gce-tcb-verifier/endorse"
+	"github.com/google/gce-tcb-verifier/ovmf/abi"
 	epb "github.com/google/gce-tcb-verifier/proto/endorsement"
 	"github.com/google/gce-tcb-verifier/sev"
 	"github.com/google/gce-tcb-verifier/tdx"
@@ -23,6 +24,7 @@ import (
 	"verifharness/doubles"
 	"verifharness/gen"
 	"verifharness/gen/endreq"
+	"verifharness/gen/fw"
 	"verifharness/props/c04/snpref"
 	"verifharness/props/c05/tdxref"
 )
@@ -238,6 +240,19 @@ func run(c *core.Ctx) {
 			if ec.SevSnp != nil {
 				ec.Image = breakSNP(ec.Image)
 				kind = "image-without-valid-snp-metadata"
+			}
+		case 3, 4:
+			if ec.Tdx != nil {
+				// an image whose TDX measurement fails part-way: a temporary-memory section flagged for extension has no
+				// contents to extend, which the measurement only notices after the earlier sections were absorbed
+				spec := fw.Random(r, 256<<10)
+				spec.Tdx.Sections = append(spec.Tdx.Sections, &abi.TDXMetadataSection{MemoryBase: 0x830000, MemorySize: 0x2000, SectionType: abi.TDXMetadataSectionTypeTempMem, Attributes: 1})
+				spec.Tdx.Header.SectionCount++
+				spec.Tdx.Header.Length += 32
+				if img, berr := fw.Build(r, spec); berr == nil {
+					ec.Image = img
+					kind = "tdx-measurement-fails-part-way"
+				}
 			}
 		}
 		reqImageID := ""
